@@ -970,6 +970,13 @@ class FnTranslator:
         if k == "let":
             _, pat, ty, e, line = st
             if e is None: raise RsError("let without initialiser (line %d)" % line)
+            # (b06, round 9) locals bound to a by-value copy `let [mut] v = <expr>.clone();`: a `&mut self` method of
+            # the file may be called on them (the write cannot alias anything else); any other `let` of the name ends that
+            if pat[0] == "pvar":
+                owned = getattr(self, "owned_locals", None)
+                if owned is None: owned = self.owned_locals = set()
+                if e[0] == "mcall" and e[2] == "clone" and not e[4]: owned.add(pat[1])
+                else: owned.discard(pat[1])
             want = self.u.resolve(ty, self.impl) if ty is not None else None
             if want is None and pat[0] == "pvar" and e[0] == "call" and e[1][0] == "path" and len(e[1][1]) == 2 \
                     and e[1][1][1] in ("new", "with_capacity", "default") and self.f["body"][2] == ("path", [pat[1]]) \
@@ -1529,7 +1536,9 @@ class FnTranslator:
             a = split_macro_args(toks, self.u.rel)
             # receiver: `self`, or a local bound to a declared-and-dropped external such as `self.validator()` (its value
             # is `()`: whichever validator it is, its policy filter is the external `policy_filter_err`)
-            via_local = a[0][0] == "path" and len(a[0][1]) == 1 and env.get(a[0][1][0]) == UNIT
+            via_local = a[0][0] == "path" and len(a[0][1]) == 1 and env.get(a[0][1][0]) in (UNIT, ("opaque", "Validator"))
+            # (b06, round 9) ... or a parameter of the opaque type `Validator` (`Arc<dyn Validator>`): the macro only reads
+            # its policy filter, which is the same external `policy_filter_err`
             if a[0] != ("path", ["self"]) and not via_local: raise RsError("policy_err! on something else than self")
             if not (self.trait_self or "self" in env): raise RsError("policy_err! without self")
             tag, t = self.expr(a[1], env, pre, ("str",))
@@ -2724,6 +2733,8 @@ class FnTranslator:
             if info.mut_params: raise RsError("callee with &mut parameters")
             a = self.args_for(info, args, env, pre)
             if info.mut_self:
+                if v not in self.mut_params and v in getattr(self, "owned_locals", ()) and not info.is_result:
+                    return self.invoke(info, recv, args, env, pre)     # stored back into the local (by-value copy)
                 if v not in self.mut_params: raise RsError("&mut self method on a receiver that is not a &mut parameter")
                 if info.is_result: raise RsError("Result-returning &mut method on a parameter")
                 term, t, kind = self.call_translated(info, a, env, pre, lid(v))
